@@ -66,7 +66,9 @@ def make_packages(P):
     mod = P.add_module("mod")
     missing = P.missing("missing")
     P.cref = make_cref_packages(P)
-    return [pa, pb, pc, pd, nocomp, mod, missing]
+    # wave 6: the WHOLE argument of '%import' is the name: a component package followed by another word (a second
+    # package, junk) is not the name of an importable package
+    return [pa, pb, pc, pd, nocomp, mod, missing, pa + " " + pb, pb + " x"]
 
 
 def alphabet(S, plist, tier):
